@@ -160,7 +160,17 @@ fn check_wrong_kind(v: &Value) -> Verdict {
 /// collections whose elements are Values (of every kind, none included): into a Value and back, every entry kept
 fn check_value_collections(v: &Value) -> Verdict {
     let fail = |what: &str, got: String| Err(Issue::new(format!("convert:collection:{what}"), format!("element {}: {got}", show_value(v))));
-    let entries: Vec<(String, Value)> = vec![("a".into(), v.clone()), ("n".into(), Value::None), ("z".into(), v.clone()), ("".into(), Value::None)];
+    // (keys are opaque text: dots, blanks and path-like spellings stay one key)
+    let entries: Vec<(String, Value)> = vec![
+        ("a".into(), v.clone()),
+        ("n".into(), Value::None),
+        ("z".into(), v.clone()),
+        ("".into(), Value::None),
+        ("customer.name".into(), v.clone()),
+        ("a.b.c".into(), Value::Int(3)),
+        ("a".into(), v.clone()),
+        ("list.0".into(), Value::Int(4)),
+    ];
     let bt: BTreeMap<String, Value> = entries.iter().cloned().collect();
     let hm: HashMap<String, Value> = entries.iter().cloned().collect();
     let opt: BTreeMap<&str, Option<Value>> = [("some", Some(v.clone())), ("none", None)].into_iter().collect();
@@ -195,6 +205,56 @@ fn check_value_collections(v: &Value) -> Verdict {
         other => return fail("From<Vec<Option<Value>>>", show_value(&other)),
     }
     Ok(())
+}
+
+/// a caller's own element type that accepts several kinds of value (an integer, a float, or nothing)
+#[derive(Debug, PartialEq)]
+enum Loose {
+    I(i128),
+    F(u64),
+    Nothing,
+}
+
+impl TryFrom<Value> for Loose {
+    type Error = reval::Error;
+    fn try_from(v: Value) -> Result<Self, reval::Error> {
+        match v {
+            Value::Int(i) => Ok(Loose::I(i)),
+            Value::Float(f) => Ok(Loose::F(f.to_bits())),
+            Value::None => Ok(Loose::Nothing),
+            other => Err(reval::Error::unexpected_val_type(other, "Loose")),
+        }
+    }
+}
+
+/// lists and maps of mixed kinds extract element-wise into a caller's own multi-kind element type
+fn check_custom_elements() -> Verdict {
+    let mixed = vec![Value::Int(1), Value::Float(2.5), Value::None, Value::Int(-3), Value::Float(f64::NAN)];
+    let want = || vec![Loose::I(1), Loose::F(2.5f64.to_bits()), Loose::Nothing, Loose::I(-3), Loose::F(f64::NAN.to_bits())];
+    let fail = |what: &str, got: String| Err(Issue::new(format!("convert:collection:{what}"), got));
+    for n in 0..=mixed.len() {
+        let list = Value::Vec(mixed[..n].to_vec());
+        match catch(|| Vec::<Loose>::try_from(list.clone())).map_err(|p| Issue::new("convert:panic", format!("Vec<custom element>::try_from({}) panicked: {p}", show_value(&list))))? {
+            Ok(xs) if xs == want()[..n] => {}
+            other => return fail("Vec<custom>", format!("{} -> {other:?}", show_value(&list))),
+        }
+        let map = Value::Map(mixed[..n].iter().enumerate().map(|(i, v)| (format!("k{i}"), v.clone())).collect());
+        match catch(|| BTreeMap::<String, Loose>::try_from(map.clone())).map_err(|p| Issue::new("convert:panic", format!("BTreeMap<String, custom element>::try_from({}) panicked: {p}", show_value(&map))))? {
+            Ok(m) if m.len() == n && want()[..n].iter().enumerate().all(|(i, w)| m.get(&format!("k{i}")) == Some(w)) => {}
+            other => return fail("BTreeMap<String,custom>", format!("{} -> {other:?}", show_value(&map))),
+        }
+        let nested = Value::Map([("inner".to_string(), list.clone())].into_iter().collect());
+        match catch(|| HashMap::<String, Vec<Loose>>::try_from(nested.clone())).map_err(|p| Issue::new("convert:panic", format!("HashMap<String, Vec<custom element>>::try_from({}) panicked: {p}", show_value(&nested))))? {
+            Ok(m) if m.get("inner").map(|xs| xs[..] == want()[..n]).unwrap_or(false) => {}
+            other => return fail("HashMap<String,Vec<custom>>", format!("{} -> {other:?}", show_value(&nested))),
+        }
+    }
+    // one element that does not convert fails the whole extraction
+    let bad = Value::Vec(vec![Value::Int(1), Value::String("x".into()), Value::Float(1.0)]);
+    match catch(|| Vec::<Loose>::try_from(bad.clone())).map_err(|p| Issue::new("convert:panic", format!("panicked: {p}")))? {
+        Err(_) => Ok(()),
+        other => fail("Vec<custom>", format!("{} -> {other:?}", show_value(&bad))),
+    }
 }
 
 /// scalar round trips other than integers
@@ -468,6 +528,9 @@ pub fn run(ctx: &Ctx) {
         pool.len() as u64,
         true,
         |i, acc| {
+            if i == 0 {
+                check_custom_elements()?;
+            }
             let v = &pool[i as usize];
             acc.cell(&format!("kind:{}", type_name(v)), true);
             if i % 11 == 0 {
